@@ -462,12 +462,14 @@ func tablesFor(text string, doc any) (numtab, rxtab string) {
 	sort.Strings(np)
 	subj := map[string]bool{}
 	collectStrings(doc, subj)
-	for p := range pats { // a string literal can also stand on the left of MATCHES
+	// any string can stand on either side of MATCHES (`'abc' MATCHES name` takes the pattern from the
+	// document): the oracle table holds every ordered pair of the strings in the text and the document
+	for p := range pats {
 		subj[p] = true
 	}
 	var rp []string
-	if len(pats)*len(subj) <= 1200 {
-		for p := range pats {
+	if len(subj)*len(subj) <= 3600 {
+		for p := range subj {
 			re, err := regexp.Compile(p)
 			for s := range subj {
 				v := "x"
